@@ -5,7 +5,7 @@
    model follows the implementation's verdict, which is why the theorems below are stated for the
    exact verdict, oracle = None). *)
 From Coq Require Import Lia ZArith.
-From ChitchatModel Require Import Base SMap Ids Params NodeState FD SMap_lemmas FD_lemmas.
+From ChitchatModel Require Import Base SMap Ids Params NodeState FD SMap_lemmas FD_lemmas GuardsGen GuardTie.
 Local Open Scope Z_scope.
 
 (* whatever the earlier heartbeat pattern (the window's content, any size 1..), if the last
@@ -116,3 +116,21 @@ Proof.
   right. exists last. split; [reflexivity|]. split; [apply Z.leb_le; exact E|reflexivity].
 Qed.
 Print Assumptions C10_interval_recorded_only_within_max_interval.
+
+(* ---- the tie of the decision guards to the sources (GuardTie.v; see C14.v for the scheme):
+   the model function is the decision tree over the model's guards g_x, and each g_x cuts its
+   operands' space along the same boundary as rs_x, the translation of today's Rust expression
+   (regenerated on every run by tools/guards.py).  A source change that moves a boundary breaks
+   this theorem on the next run. ---- *)
+Theorem C10_window_guard_is_the_source_guard :
+  (forall cfg now w, win_report cfg now w =
+     match wd_last w with
+     | Some last =>
+         if g_fd_interval (now - last) (max_interval cfg)
+         then mkWin (firstn (window_size cfg) ((now - last)%Z :: wd_vals w)) (Some now)
+         else mkWin (wd_vals w) (Some now)
+     | None => mkWin (wd_vals w) (Some now)
+     end) /\
+  ((forall i m, rs_fd_interval i m = g_fd_interval i m) \/ (forall i m, rs_fd_interval i m = negb (g_fd_interval i m))).
+Proof. exact (conj win_report_is_the_tree tie_fd_interval). Qed.
+Print Assumptions C10_window_guard_is_the_source_guard.
